@@ -11,7 +11,7 @@ for id in $IDS; do
   git -C /repo worktree add -q --detach "$W/wt" HEAD || continue
   if git -C "$W/wt" apply "$V/seeded/$id/patch.diff" 2>/dev/null; then
     for c in $CHECKS; do
-      out=$(VERIF_REPO="$W/wt" bin/check $c --tier quick ${SCALE:+--scale $SCALE} 2>&1); ec=$?
+      out=$(VERIF_OUT="$W/vout" VERIF_REPO="$W/wt" bin/check $c --tier quick ${SCALE:+--scale $SCALE} 2>&1); ec=$?
       sig=$(echo "$out" | grep -E "^C[0-9]+/" | head -1 | cut -c1-120)
       echo "$id $c exit=$ec $sig"
     done
